@@ -16,6 +16,7 @@ import subprocess
 import sys
 import time
 
+import math
 import numpy as np
 
 from vf import gen, ref, si, engines, simhelp
@@ -88,12 +89,18 @@ def build_script(sd, idx, override_seed=None, policy=None, sibling=None):
     else:
         dt = 0.01 / maxrate
         horizon = dt * nsteps
+    dyadic = kind_ != "gillespie" and r.random() < 0.25
+    if dyadic:
+        # a power-of-two step counted in seconds: step times are exact and the run lands EXACTLY on t_max = nsteps * dt (the
+        # step that completes the run is then the one after it)
+        dt = 2.0 ** math.floor(math.log2(dt))
+        horizon = dt * nsteps
     pol = policy or r.choice(["on_t_sample", "on_t_sample", "on_interval", "on_iteration"])
     if pol == "on_iteration" and nsteps > 3000:
         pol = "on_t_sample"
     ts = sorted(r.uniform(0, horizon) for _ in range(r.randint(1, 10))) + [horizon]
     ms = gen.mild_sys(r)
-    usys = (ms[0], ms[1], "molecule")
+    usys = (ms[0], ms[1] if not dyadic else "s", "molecule")
     # seeds: mostly random, but also the edge values of the documented range (0 is a valid explicit seed)
     sseed = (r.choice([0, 0, 1, 2 ** 31 - 1, 2 ** 31, 2 ** 32 - 1]) if r.random() < 0.3 else r.randrange(2 ** 32)) \
         if override_seed is None else override_seed
@@ -103,7 +110,7 @@ def build_script(sd, idx, override_seed=None, policy=None, sibling=None):
     if kind_ == "euler":
         isp = r.choice(["none", "auto"])      # with an explicit stochastic resampling mode the seed legitimately matters
     script = simhelp.make_script(system, r, dt_si=dt, t_sample_si=[0.0] + ts, policy=pol, t_max_si=horizon,
-                                 interval_si=horizon / r.randint(3, 30), usys=usys, isp=isp, seed=sseed)
+                                 interval_si=horizon / r.randint(3, 30), usys=usys, isp=isp, seed=sseed, **({"forms": ("bare",)} if dyadic else {}))
     return desc, kind_, script, {"engine": kind_, "space": sp_kind, "cells": gen.ncells(desc["space"]),
                                  "species": len(desc["species"]), "policy": pol, "nsteps_planned": nsteps, "dt": dt}
 
